@@ -407,10 +407,10 @@ KINDS = ["fetch0", "fetch2", "offsets", "metadata", "coordinator", "commit", "of
 
 
 def replay(v):
-    u = v["input"]["unit"]
     if v["signature"].startswith("C04:neg"):
         from checks import C04_neg
         return C04_neg.replay(v)
+    u = v["input"]["unit"]
     st = produce_unit(u) if "version" in u else simple_unit(u)
     return [x for x in st.violations if x["signature"] == v["signature"]]
 
